@@ -266,6 +266,10 @@ def ev_unary(op, node, m):
     if op == 'boom':
         return m.clone(vals=[
             lift(lambda v: progs.boom_model(node['m'], node['r'], node['exc'], node['fn'], v), v) for v in m.vals])
+    if op == 'boomset':
+        return m.clone(vals=[lift(lambda v: progs.boomset_model(node['fail'], node['fn'], v), v) for v in m.vals])
+    if op == 'predraise':
+        return m.clone(vals=[lift(lambda v: progs.predraise_model(node['m'], node['r'], v), v) for v in m.vals])
     if op == 'frag':
         return m.clone(vals=[lift(progs.f_frag, v) for v in m.vals])
     if op == 'batch_map':
